@@ -138,6 +138,12 @@ Qed.
 Lemma rnd1_ok now : rand_ok (mkenv now rnd1).
 Proof. split; [repeat constructor|]. eexists _, _. reflexivity. Qed.
 
+Ltac run_step :=
+  match goal with
+  | |- context [net_step ?n ?e ?o] =>
+    let v := eval vm_compute in (net_step n e o) in change (net_step n e o) with v; cbn iota; cbn [no_net]
+  end.
+
 Example C20_nonvacuous :
   valid_net_api (net_new true) 0 demo /\
   match run_net (net_new true) 0 demo with
@@ -153,14 +159,14 @@ Example C20_nonvacuous :
   end.
 Proof.
   split.
-  - unfold demo. cbn [valid_net_api].
-    split; [split; [exact connect_raw_ok|split; [apply rnd1_ok|vm_compute; reflexivity]]|]. vm_compute net_step. cbn iota. cbn [no_net].
-    split; [split; [exact connect_raw_ok|split; [apply rnd1_ok|vm_compute; reflexivity]]|]. vm_compute net_step. cbn iota. cbn [no_net].
-    split; [split; [exact connect_raw_ok|split; [apply rnd1_ok|vm_compute; reflexivity]]|]. vm_compute net_step. cbn iota. cbn [no_net].
-    split; [exact I|]. vm_compute net_step. cbn iota. cbn [no_net].
-    split; [eexists; split; [reflexivity|split; [reflexivity|apply rnd1_ok]]|]. vm_compute net_step. cbn iota. cbn [no_net].
-    split; [eexists; split; [reflexivity|split; [reflexivity|split; [reflexivity|cbn; repeat constructor]]]|]. vm_compute net_step. cbn iota. cbn [no_net].
-    split; [exact I|]. vm_compute net_step. cbn iota. exact I.
+  - unfold demo. cbn [valid_net_api valid_nop].
+    split; [split; [exact connect_raw_ok|split; [apply rnd1_ok|vm_compute; reflexivity]]|]. run_step.
+    split; [split; [exact connect_raw_ok|split; [apply rnd1_ok|vm_compute; reflexivity]]|]. run_step.
+    split; [split; [exact connect_raw_ok|split; [apply rnd1_ok|vm_compute; reflexivity]]|]. run_step.
+    split; [exact I|]. run_step.
+    split; [eexists; split; [reflexivity|split; [reflexivity|apply rnd1_ok]]|]. run_step.
+    split; [eexists; split; [reflexivity|split; [reflexivity|split; [reflexivity|cbn; repeat constructor]]]|]. run_step.
+    split; [exact I|]. run_step. exact I.
   - vm_compute. split; reflexivity.
 Qed.
 
